@@ -82,6 +82,15 @@ func c15Run(k *core.Case) {
 		}
 		faults = append(faults, f)
 	}
+	if r.Chance(1, 5) {
+		// an error that makes the group back off, a later answer that must not (RebalanceInProgress keeps
+		// the member id and re-joins at once): whatever the first left behind must not affect the second
+		api1 := core.Pick(r, fakecluster.KJoinGroup, fakecluster.KSyncGroup, fakecluster.KOffsetFetch)
+		api2 := core.Pick(r, fakecluster.KJoinGroup, fakecluster.KSyncGroup, fakecluster.KOffsetFetch)
+		n1 := r.Range(1, 2)
+		faults = append(faults, fault{api: api1, n: n1, act: "error", code: core.Pick(r, int16(15), int16(16), int16(22), int16(3))},
+			fault{api: api2, n: n1 + r.Range(1, 3), act: "error", code: 27})
+	}
 	fnKinds := []string{}
 	for i := r.Range(1, 4); i > 0; i-- {
 		fnKinds = append(fnKinds, core.Pick(r, "on-cancel", "on-cancel", "at-once", "late", "after-ms"))
@@ -266,10 +275,17 @@ func c15Run(k *core.Case) {
 			}
 		}
 	}()
+	stalled := false
+	var closeWall time.Time
 	select {
 	case <-appDone:
 	case <-k.Cancelled:
+	case <-time.After(20 * time.Second):
+		// the application loop is still waiting in Next: the scenarios last a second or two, so the group
+		// has stopped making progress (judged below from the coordinator's journal)
+		stalled = true
 	}
+	closeWall = time.Now()
 	mu.Lock()
 	didClose := closeRet != 0
 	mu.Unlock()
@@ -557,6 +573,30 @@ func c15Run(k *core.Case) {
 		}
 		if left {
 			c.Count("closes_with_leavegroup", 1)
+		}
+	}
+	// (f) a failed join or sync is retried: when the application was still waiting in Next 20 s into the
+	// scenario, the last error answer to a JoinGroup/SyncGroup must have been followed by another JoinGroup
+	if stalled {
+		lastErr := -1
+		for i, g := range greqs {
+			if (g.api == fakecluster.KJoinGroup || g.api == fakecluster.KSyncGroup) && g.code != 0 {
+				lastErr = i
+			}
+		}
+		retried := false
+		if lastErr >= 0 {
+			for _, g2 := range greqs[lastErr+1:] {
+				if g2.api == fakecluster.KJoinGroup {
+					retried = true
+				}
+			}
+		}
+		if lastErr >= 0 && !retried && closeWall.Sub(greqs[lastErr].wall) > 10*time.Second {
+			g := greqs[lastErr]
+			k.TimeViol("c15:no-rejoin-after-error", fmt.Sprintf("%s was answered with error code %d and no JoinGroup followed for %s (JoinGroupBackoff is %s): Next was still blocked when the scenario was closed", refcodec.APIs[g.api].Name, g.code, closeWall.Sub(g.wall).Round(time.Second), backoff), wit())
+		} else {
+			c.Count("stalled_scenarios_without_verdict", 1)
 		}
 	}
 	// (e) back-off after a failed join
